@@ -79,13 +79,45 @@ func goEnv() []string {
 		}
 		out = append(out, e)
 	}
-	return append(out, "GOFLAGS=-mod=mod", "GOPROXY=off", "GOSUMDB=off", "GOTOOLCHAIN=local")
+	flags := "GOFLAGS=-mod=mod"
+	if devRepo != "" {
+		flags += " -modfile=" + devModfile()
+	}
+	return append(out, flags, "GOPROXY=off", "GOSUMDB=off", "GOTOOLCHAIN=local")
 }
 
 func harnessDir() string { return filepath.Join(verifRoot, "harness") }
 
+// Development aid, never used by a registered command: VERIF_DEVREPO=<worktree>
+// builds the harness against that copy of the repository instead of /repo
+// (an alternate go.mod via -modfile) and keeps build output, evidence and
+// replays under .build/dev-<name>, so a seeded change can be checked without
+// touching /repo or the committed evidence.
+var devRepo = os.Getenv("VERIF_DEVREPO")
+
+func outRoot() string {
+	if devRepo == "" {
+		return verifRoot
+	}
+	return filepath.Join(verifRoot, ".build", "dev-"+filepath.Base(devRepo))
+}
+
+func devModfile() string {
+	dir := outRoot()
+	os.MkdirAll(dir, 0o755)
+	mf := filepath.Join(dir, "go.mod")
+	b, err := os.ReadFile(filepath.Join(harnessDir(), "go.mod"))
+	if err != nil {
+		panic(err)
+	}
+	os.WriteFile(mf, bytes.Replace(b, []byte("=> /repo"), []byte("=> "+devRepo), 1), 0o644)
+	sum, _ := os.ReadFile(filepath.Join(harnessDir(), "go.sum"))
+	os.WriteFile(filepath.Join(dir, "go.sum"), sum, 0o644)
+	return mf
+}
+
 func build(id string, c propCfg) (string, error) {
-	binDir := filepath.Join(verifRoot, ".build")
+	binDir := filepath.Join(outRoot(), ".build")
 	os.MkdirAll(binDir, 0o755)
 	bin := filepath.Join(binDir, strings.ToLower(id)+".test")
 	args := []string{"test", "-c", "-tags", "verif", "-vet=off", "-o", bin}
@@ -328,7 +360,7 @@ func cmdRun(id, tier string) int {
 		fmt.Fprintln(os.Stderr, err)
 		return 2
 	}
-	runDir := filepath.Join(verifRoot, ".build", "run-"+strings.ToLower(id)+"-"+tier)
+	runDir := filepath.Join(outRoot(), ".build", "run-"+strings.ToLower(id)+"-"+tier)
 	os.RemoveAll(runDir)
 	os.MkdirAll(filepath.Join(runDir, "stats"), 0o755)
 	// rapid replays testdata/rapid first: remove.
@@ -360,7 +392,7 @@ func cmdRun(id, tier string) int {
 	violations := 0
 	inconclusive := 0
 	knownPrinted := map[string]bool{}
-	os.MkdirAll(filepath.Join(verifRoot, "replays"), 0o755)
+	os.MkdirAll(filepath.Join(outRoot(), "replays"), 0o755)
 	var lines []string
 	for _, r := range results {
 		os.WriteFile(filepath.Join(runDir, fmt.Sprintf("out.%d.log", r.shard)), []byte(r.out), 0o644)
@@ -371,7 +403,7 @@ func cmdRun(id, tier string) int {
 			sort.Strings(reps)
 			for _, rp := range reps {
 				sub := strings.TrimSuffix(strings.TrimPrefix(rp, r.replay+"."), ".json")
-				dst := filepath.Join(verifRoot, "replays", fmt.Sprintf("%s-%s-%s-seed%d-shard%d.json", id, sub, tier, seed, r.shard))
+				dst := filepath.Join(outRoot(), "replays", fmt.Sprintf("%s-%s-%s-seed%d-shard%d.json", id, sub, tier, seed, r.shard))
 				copyFile(rp, dst)
 				lines = append(lines, fmt.Sprintf("VIOLATION property=%s replay=%s", id, dst))
 				violations++
@@ -394,7 +426,7 @@ func cmdRun(id, tier string) int {
 				continue
 			}
 			if _, err := os.Stat(r.journal); err == nil {
-				dst := filepath.Join(verifRoot, "replays", fmt.Sprintf("%s-%s-seed%d-shard%d-crash.json", id, tier, seed, r.shard))
+				dst := filepath.Join(outRoot(), "replays", fmt.Sprintf("%s-%s-seed%d-shard%d-crash.json", id, tier, seed, r.shard))
 				copyFile(r.journal, dst)
 				os.WriteFile(dst+".crashlog", []byte(tail(r.out, 200)), 0o644)
 				lines = append(lines, fmt.Sprintf("VIOLATION property=%s replay=%s", id, dst))
@@ -426,7 +458,7 @@ func cmdRun(id, tier string) int {
 					os.Remove(fr.crasher)
 					continue
 				}
-				dst := filepath.Join(verifRoot, "replays", fmt.Sprintf("%s-fuzz-%s-%s.fuzz", id, target, filepath.Base(fr.crasher)))
+				dst := filepath.Join(outRoot(), "replays", fmt.Sprintf("%s-fuzz-%s-%s.fuzz", id, target, filepath.Base(fr.crasher)))
 				copyFile(fr.crasher, dst)
 				os.Remove(fr.crasher)
 				lines = append(lines, fmt.Sprintf("VIOLATION property=%s replay=%s", id, dst))
@@ -462,8 +494,8 @@ func cmdRun(id, tier string) int {
 	ev["violations"] = violations
 	if ev != nil {
 		b, _ := json.MarshalIndent(ev, "", " ")
-		os.MkdirAll(filepath.Join(verifRoot, "evidence"), 0o755)
-		os.WriteFile(filepath.Join(verifRoot, "evidence", id+".json"), b, 0o644)
+		os.MkdirAll(filepath.Join(outRoot(), "evidence"), 0o755)
+		os.WriteFile(filepath.Join(outRoot(), "evidence", id+".json"), b, 0o644)
 	}
 	cov, _ := ev["coverage"].(map[string]interface{})
 	fmt.Printf("property=%s tier=%s seed=%d shards=%d evaluations=%v distinct_nontrivial=%v wall=%.1fs\n", id, tier, seed, nshards, cov["evaluations"], cov["distinct_nontrivial"], time.Since(start).Seconds())
